@@ -122,13 +122,9 @@ def run(tier, seed):
     makers = [lambda r: gen.gen_core(r, fallible=0.2, sugar=0.25, pat=0.4), gen2.gen_macros, gen2.gen_prec, lambda r: gen.gen_loc(r)]
     tags = ["td_lane", "ra_lane"]
     # deterministic probe of known finding F6: rename S to `E<tightest level>` next to an annotated E
-    import random as _random
-    for ps in range(50):
-        pg = gen2.gen_prec(_random.Random(7000 + ps))
-        e_nt = pg.nt("E")
-        lv = sorted({a.prec[0] for a in e_nt.alts if a.prec and a.prec[0] is not None})
-        if len(lv) >= 2:
-            break
+    from .. import probes
+    pg = probes.f6_grammar()
+    lv = [1, 2]
     pmap_ = {"S": "E%d" % lv[0]}
     pg2 = rename(pg, pmap_, {})
     pairs.append((pg, pg2, gmodel.desugar(pg), pmap_, {}))
